@@ -351,4 +351,238 @@ theorem phL_pending {n0 : Nat} {f0 : Iso.Node} {nx : Iso.Node → Nat} {b : Bus}
   | 1, hk => exact p0 hk
   | 0, hk => rcases hk with hk | hk; exact p1 hk; exact p0 hk
 
+/-! ## mirror case: the library device has the higher NAME and moves -/
+
+/-- `GetNextAddress` of a device without siblings: the next address (251 wraps to 0), 254 at the end of the search -/
+def nxt (a e : Nat) : Nat := if a = e then 254 else (a + 1) % 252
+
+theorem nxt_ne (a e : Nat) (ha : a ≤ 251) : nxt a e ≠ a := by unfold nxt; split <;> omega
+theorem nxt_lt (a e : Nat) : nxt a e < 256 := by unfold nxt; split <;> omega
+
+theorem search_nosib (a e : Nat) (ha : a ≤ 251) (he : e ≤ 251) : (search false [] searchFuel a e).source = nxt a e := by
+  have hd : dist a e ≤ 251 := by unfold dist; omega
+  have p := search_post false [] (dist a e) searchFuel a e ha he rfl (by unfold searchFuel; omega)
+  unfold nxt
+  rcases p.result with ⟨h254, hall⟩ | ⟨k, h1, h2, hr, _, hall⟩
+  · by_cases hae : a = e
+    · rw [if_pos hae]; exact h254
+    · have : 1 ≤ dist a e := by unfold dist; omega
+      have := hall 1 (by omega) this
+      simp at this
+  · by_cases hk : k = 1
+    · subst hk
+      have : a ≠ e := by intro h; subst h; unfold dist at h2; omega
+      rw [if_neg this, hr]; rfl
+    · have := hall 1 (by omega) (by omega)
+      simp at this
+
+/-- exact move of a one-device instance that loses the arbitration: address, frame, and the change is latched -/
+theorem lib_move_exact (x : Inst) (nm a : Nat) (d : Dev) (h : LibAt x nm a) (hd : x.s.devs = [d]) (ha : a ≤ 251)
+    (c : Iso.Claim) (hn : c.1 < 2^64) (hc : c.2 < 256) (hea : c.2 = a) (hgt : c.1 < nm) :
+    let r := libParse x [.frame (frameOfClaim c)]
+    LibAt r.1 nm (nxt a d.endSource) ∧ r.2 = [frameOfClaim (nm, nxt a d.endSource)] ∧ r.1.addressChanged = true := by
+  intro r
+  have hc' := libAt_clear h
+  have hdv : (clearSent x).s.devs = [d] := hd
+  obtain ⟨d1, hd1, hdn, hds⟩ := hc'.dev
+  rw [hdv] at hd1; cases hd1
+  have hr1 : r.1 = heartbeatPass (handleClaim (clearSent x) c.2 c.1) := libRx_eq x h.1 h.2.1 c hn hc
+  have hr2 : r.2 = r.1.s.drv.sent := rfl
+  have hsent0 : (clearSent x).s.drv.sent = [] := rfl
+  have hpost := handleClaim_post (clearSent x) hc'.1 hc'.2.1 c.2 c.1
+  have hopen : (handleClaim (clearSent x) c.2 c.1).s.openState = 3 := ann_open hpost.2 hc'.2.1
+  have hbok := (heartbeatPass_post _ hpost.1).1
+  have hd0 : (clearSent x).s.devs[0]? = some d := by rw [hdv]; rfl
+  have hf : findSourceDev (clearSent x).s.devs c.2 = some 0 := by
+    unfold findSourceDev; rw [hdv, if_pos (by omega)]; simp [List.findIdx?_cons, hds, hea]
+  have arb := (handleClaim_arbitration (clearSent x) hc'.1 hc'.2.1 c.2 c.1 0 d (by omega) hf hd0).2 (by rw [hdn]; exact hgt)
+  simp only at arb
+  obtain ⟨_, _, ⟨d', hd', hd'n, hd's⟩, hchg, hsent⟩ := arb
+  have dok := hc'.1.dev hd0
+  have hsib : siblings (clearSent x).s.devs 0 = [] := by rw [hdv]; rfl
+  have hsrc : d'.source = nxt a d.endSource := by
+    rw [hd's, hsib, hds]; exact search_nosib a d.endSource ha (by have := dok.2.2 (by omega); exact this)
+  refine ⟨⟨by rw [hr1]; exact hbok, by rw [hr1, hb_open]; exact hopen, ?_⟩, ?_, ?_⟩
+  · rw [hr1, hb_map]
+    have hlen : (handleClaim (clearSent x) c.2 c.1).s.devs.length = 1 := by
+      obtain ⟨_, _, hl, _⟩ := hpost.2; rw [hl, hdv]; rfl
+    cases hdl : (handleClaim (clearSent x) c.2 c.1).s.devs with
+    | nil => rw [hdl] at hlen; cases hlen
+    | cons e t =>
+      rw [hdl] at hlen hd'
+      cases t with
+      | nil => simp at hd'; subst hd'; simp [hd'n, hdn, hsrc]
+      | cons e' t' => simp at hlen
+  · have hs2 : (search false (siblings (clearSent x).s.devs 0) searchFuel d.source d.endSource).source = nxt a d.endSource := by
+      rw [← hd's]; exact hsrc
+    rw [hr2, hr1, hb_sent, hsent, hsent0, hs2, hdn]; rfl
+  · rw [hr1]
+    have : (heartbeatPass (handleClaim (clearSent x) c.2 c.1)).addressChanged = (handleClaim (clearSent x) c.2 c.1).addressChanged := by
+      unfold heartbeatPass; split <;> rfl
+    rw [this]; exact hchg
+
+/-- the application of node 0 has an unread address-changed indication -/
+def Chg (b : Bus) : Prop := ∃ x, (b.node 0).kind = .lib x ∧ x.addressChanged = true
+
+theorem chg_step1 {b : Bus} {n0 A : Nat} {f : Iso.Node} {in0 in1 : List Iso.Claim} (h : Two b n0 A f in0 in1) (hc : Chg b) :
+    Chg (step b (.deliver 1)) := by
+  obtain ⟨x, hk, hx⟩ := hc
+  simp only [step]
+  split
+  · split
+    · exact ⟨x, hk, hx⟩
+    · exact ⟨x, by rw [act_kind_other b 1 0 (by omega)]; exact hk, hx⟩
+  · exact ⟨x, hk, hx⟩
+
+theorem chg_step0 {b : Bus} {n0 A : Nat} {f : Iso.Node} {in0 in1 : List Iso.Claim} (h : Two b n0 A f in0 in1) (hc : Chg b) :
+    Chg (step b (.deliver 0)) := by
+  obtain ⟨x, hk, hx⟩ := hc
+  obtain ⟨_, ⟨x', hk', hl⟩, _⟩ := h
+  rw [hk] at hk'; cases hk'
+  simp only [step]
+  split
+  · split
+    · exact ⟨x, hk, hx⟩
+    · rename_i fr rest _
+      refine ⟨(libParse x [.frame fr]).1, by rw [act_node_self, hk]; rfl, ?_⟩
+      have := rep_parse (clearSent x) (libOK_clearSent hl.1) (some (.frame fr))
+      exact this.2.1 hx
+  · exact ⟨x, hk, hx⟩
+
+/-- node 0 loses the arbitration: exact new address, and the change is latched -/
+theorem two_deliver0_move {b : Bus} {n0 A : Nat} {f : Iso.Node} {c : Iso.Claim} {r0 in1 : List Iso.Claim} {x : Inst} {d : Dev}
+    (h : Two b n0 A f (c :: r0) in1) (hkx : (b.node 0).kind = .lib x) (hd : x.s.devs = [d]) (ha : A ≤ 251) (he : c.2 = A)
+    (hl : c.1 < n0) :
+    Two (step b (.deliver 0)) n0 (nxt A d.endSource) f r0 (in1 ++ [(n0, nxt A d.endSource)]) ∧ Chg (step b (.deliver 0)) := by
+  obtain ⟨hn, ⟨x', hk, hx⟩, h0, hk1, hst, h1, hb0, hb1⟩ := h
+  rw [hkx] at hk; cases hk
+  have hcok := hb0 c (List.mem_cons_self)
+  have hr0 : ∀ c' ∈ r0, okClaim c' := fun c' hc' => hb0 c' (List.mem_cons_of_mem _ hc')
+  have hlt : 0 < b.n := by omega
+  have hstep : step b (.deliver 0) = act b 0 (kindRx b.next (b.node 0).kind (frameOfClaim c)) (r0.map frameOfClaim) := by
+    simp only [step, hlt, ↓reduceIte, h0, List.map_cons]
+  have hkr : kindRx b.next (b.node 0).kind (frameOfClaim c) =
+      (.lib (libParse x [.frame (frameOfClaim c)]).1, (libParse x [.frame (frameOfClaim c)]).2) := by rw [hkx]; rfl
+  have hon : onBus (b.node 1).kind = true := by rw [hk1]; exact hst
+  have mv := lib_move_exact x n0 A d hx hd ha c hcok.1 hcok.2 he hl
+  simp only at mv
+  rw [hstep, hkr]
+  refine ⟨⟨hn, ⟨_, by rw [act_node_self], mv.1⟩, by rw [act_node_self], ?_, hst, ?_, hr0, ?_⟩, ⟨_, by rw [act_node_self], mv.2.2⟩⟩
+  · rw [act_kind_other b 0 1 (by omega)]; exact hk1
+  · rw [act_node_other b 0 1 (by omega), if_pos hon]; simp [h1, mv.2.1]
+  · intro c' hc'; rcases List.mem_append.mp hc' with h | h
+    · exact hb1 c' h
+    · simp at h; subst h; exact ⟨hx.name_lt, nxt_lt _ _⟩
+
+/-- remaining deliveries `k` ↦ shape of the bus (library instance `x0` = NAME `n0`, end-of-search `e0`, higher than `f0` at `a`) -/
+def PhH (n0 : Nat) (f0 : Iso.Node) (x0 : Inst) (e0 : Nat) (nx : Iso.Node → Nat) (k : Nat) (b : Bus) : Prop :=
+  let a := f0.addr; let n1 := f0.name; let r := nxt f0.addr e0
+  b.next = nx ∧
+  match k with
+  | 4 => Two b n0 a f0 [(n1, a)] [(n0, a)] ∧ (b.node 0).kind = .lib x0
+  | 3 => (Two b n0 r f0 [] [(n0, a), (n0, r)] ∧ Chg b) ∨ (Two b n0 a f0 [(n1, a), (n1, a)] [] ∧ (b.node 0).kind = .lib x0)
+  | 2 => Two b n0 r f0 [(n1, a)] [(n0, r)] ∧ Chg b
+  | 1 => (Two b n0 r f0 [] [(n0, r)] ∧ Chg b) ∨ (Two b n0 r f0 [(n1, a)] [] ∧ Chg b)
+  | 0 => Two b n0 r f0 [] [] ∧ Chg b
+  | _ => False
+
+theorem kind0_step1 {b : Bus} {n0 A : Nat} {f : Iso.Node} {in0 in1 : List Iso.Claim} (h : Two b n0 A f in0 in1) :
+    ((step b (.deliver 1)).node 0).kind = (b.node 0).kind := by
+  simp only [step]
+  split
+  · split
+    · rfl
+    · rw [act_kind_other b 1 0 (by omega)]
+  · rfl
+
+theorem phH_step (n0 : Nat) (f0 : Iso.Node) (x0 : Inst) (d0 : Dev) (nx : Iso.Node → Nat) (hgt : f0.name < n0) (hn1 : f0.name < 2^64)
+    (ha : f0.addr ≤ 251) (hnx : ∀ f, nx f < 256) (hd0 : x0.s.devs = [d0]) (k : Nat) (b : Bus)
+    (h : PhH n0 f0 x0 d0.endSource nx k b) (i : Nat) : Progress (PhH n0 f0 x0 d0.endSource nx) k b i := by
+  obtain ⟨hnext, hk⟩ := h
+  have hne : nxt f0.addr d0.endSource ≠ f0.addr := nxt_ne _ _ ha
+  have hn2 : ∀ {A f in0 in1}, Two b n0 A f in0 in1 → b.n = 2 := fun h => h.1
+  have nxt' : (step b (.deliver i)).next = nx := by rw [step_deliver_next]; exact hnext
+  have idle0 : ∀ {A f in1}, Two b n0 A f [] in1 → Progress (PhH n0 f0 x0 d0.endSource nx) k b 0 :=
+    fun h => Or.inl ⟨two_idle0 h, fun _ => by rw [two_inbox0 h]; rfl⟩
+  have idle1 : ∀ {A f in0}, Two b n0 A f in0 [] → Progress (PhH n0 f0 x0 d0.endSource nx) k b 1 :=
+    fun h => Or.inl ⟨two_idle1 h, fun _ => by rw [two_inbox1 h]; rfl⟩
+  have far : ∀ {A f in0 in1}, Two b n0 A f in0 in1 → 2 ≤ i → Progress (PhH n0 f0 x0 d0.endSource nx) k b i :=
+    fun h hi => Or.inl ⟨step_far b i (by rw [hn2 h]; omega), fun hh => by rw [hn2 h] at hh; omega⟩
+  have hnxb : b.next f0 < 256 := by rw [hnext]; exact hnx f0
+  match k, hk with
+  | 4, ⟨hk, hkx⟩ =>
+    rcases Nat.lt_or_ge i 2 with hi | hi
+    · rcases (by omega : i = 0 ∨ i = 1) with rfl | rfl
+      · refine Or.inr ⟨3, rfl, ⟨nxt', Or.inl ?_⟩, by rw [hn2 hk]; omega, by rw [two_inbox0 hk]; simp⟩
+        simpa using two_deliver0_move hk hkx hd0 ha rfl hgt
+      · refine Or.inr ⟨3, rfl, ⟨nxt', Or.inr ⟨?_, by rw [kind0_step1 hk]; exact hkx⟩⟩, by rw [hn2 hk]; omega, by rw [two_inbox1 hk]; simp⟩
+        simpa using (two_deliver1 hk hn1 (by omega) hnxb).2.1 rfl ha hgt
+    · exact far hk hi
+  | 3, hk =>
+    rcases hk with ⟨hk, hc⟩ | ⟨hk, hkx⟩
+    · rcases Nat.lt_or_ge i 2 with hi | hi
+      · rcases (by omega : i = 0 ∨ i = 1) with rfl | rfl
+        · exact idle0 hk
+        · refine Or.inr ⟨2, rfl, ⟨nxt', ?_, chg_step1 hk hc⟩, by rw [hn2 hk]; omega, by rw [two_inbox1 hk]; simp⟩
+          simpa using (two_deliver1 hk hn1 (by omega) hnxb).2.1 rfl ha hgt
+      · exact far hk hi
+    · rcases Nat.lt_or_ge i 2 with hi | hi
+      · rcases (by omega : i = 0 ∨ i = 1) with rfl | rfl
+        · refine Or.inr ⟨2, rfl, ⟨nxt', ?_⟩, by rw [hn2 hk]; omega, by rw [two_inbox0 hk]; simp⟩
+          simpa using two_deliver0_move hk hkx hd0 ha rfl hgt
+        · exact idle1 hk
+      · exact far hk hi
+  | 2, ⟨hk, hc⟩ =>
+    rcases Nat.lt_or_ge i 2 with hi | hi
+    · rcases (by omega : i = 0 ∨ i = 1) with rfl | rfl
+      · refine Or.inr ⟨1, rfl, ⟨nxt', Or.inl ⟨?_, chg_step0 hk hc⟩⟩, by rw [hn2 hk]; omega, by rw [two_inbox0 hk]; simp⟩
+        exact (two_deliver0 hk).1 (fun hh => hne hh.symm)
+      · refine Or.inr ⟨1, rfl, ⟨nxt', Or.inr ⟨?_, chg_step1 hk hc⟩⟩, by rw [hn2 hk]; omega, by rw [two_inbox1 hk]; simp⟩
+        exact (two_deliver1 hk hn1 (by omega) hnxb).1 (fun hh => hne hh.1)
+    · exact far hk hi
+  | 1, hk =>
+    rcases hk with ⟨hk, hc⟩ | ⟨hk, hc⟩
+    · rcases Nat.lt_or_ge i 2 with hi | hi
+      · rcases (by omega : i = 0 ∨ i = 1) with rfl | rfl
+        · exact idle0 hk
+        · refine Or.inr ⟨0, rfl, ⟨nxt', ?_, chg_step1 hk hc⟩, by rw [hn2 hk]; omega, by rw [two_inbox1 hk]; simp⟩
+          exact (two_deliver1 hk hn1 (by omega) hnxb).1 (fun hh => hne hh.1)
+      · exact far hk hi
+    · rcases Nat.lt_or_ge i 2 with hi | hi
+      · rcases (by omega : i = 0 ∨ i = 1) with rfl | rfl
+        · refine Or.inr ⟨0, rfl, ⟨nxt', ?_, chg_step0 hk hc⟩, by rw [hn2 hk]; omega, by rw [two_inbox0 hk]; simp⟩
+          exact (two_deliver0 hk).1 (fun hh => hne hh.symm)
+        · exact idle1 hk
+      · exact far hk hi
+  | 0, ⟨hk, _⟩ =>
+    rcases Nat.lt_or_ge i 2 with hi | hi
+    · rcases (by omega : i = 0 ∨ i = 1) with rfl | rfl
+      · exact idle0 hk
+      · exact idle1 hk
+    · exact far hk hi
+
+theorem phH_zero {n0 : Nat} {f0 : Iso.Node} {x0 : Inst} {e0 : Nat} {nx : Iso.Node → Nat} {b : Bus} (h : PhH n0 f0 x0 e0 nx 0 b) :
+    quiescent b ∧ claimants (b.node 0).kind = [(n0, nxt f0.addr e0)] ∧ claimants (b.node 1).kind = [(f0.name, f0.addr)] ∧ Chg b := by
+  obtain ⟨_, ⟨hn, ⟨x, hk, hx⟩, h0, hk1, hst, h1, _⟩, hc⟩ := h
+  refine ⟨fun i hi => ?_, ?_, ?_, hc⟩
+  · rw [hn] at hi
+    rcases (by omega : i = 0 ∨ i = 1) with rfl | rfl
+    · rw [h0]; rfl
+    · rw [h1]; rfl
+  · rw [hk]; simp only [claimants, hx.2.1, ↓reduceIte]; exact hx.2.2
+  · rw [hk1]; simp only [claimants]; rw [if_pos hst]
+
+theorem phH_pending {n0 : Nat} {f0 : Iso.Node} {x0 : Inst} {e0 : Nat} {nx : Iso.Node → Nat} {b : Bus} {k : Nat}
+    (h : PhH n0 f0 x0 e0 nx (k + 1) b) : ∃ i, i < b.n ∧ (b.node i).inbox ≠ [] := by
+  obtain ⟨_, hk⟩ := h
+  have p0 : ∀ {A f c r in1}, Two b n0 A f (c :: r) in1 → ∃ i, i < b.n ∧ (b.node i).inbox ≠ [] :=
+    fun h => ⟨0, by rw [h.1]; omega, by rw [two_inbox0 h]; simp⟩
+  have p1 : ∀ {A f c r in0}, Two b n0 A f in0 (c :: r) → ∃ i, i < b.n ∧ (b.node i).inbox ≠ [] :=
+    fun h => ⟨1, by rw [h.1]; omega, by rw [two_inbox1 h]; simp⟩
+  match k, hk with
+  | 3, hk => exact p0 hk.1
+  | 2, hk => rcases hk with hk | hk; exact p1 hk.1; exact p0 hk.1
+  | 1, hk => exact p0 hk.1
+  | 0, hk => rcases hk with hk | hk; exact p1 hk.1; exact p0 hk.1
+
 end N2k.Bus
